@@ -1,5 +1,6 @@
 import MetadorModel.Proofs.ContainerToc
 import MetadorModel.Py.CtrPy
+import MetadorModel.Bridge.TocFnsAttr
 /-!
 # Lemmas shared by the bridge theorems of the translated container bookkeeping
 
@@ -91,6 +92,10 @@ theorem run_rawRequireGroup_grp {p : Path} {s : St} (h : get? s.raw p = some .gr
     rawRequireGroup p s = (.ok p, s) := by
   simp [rawRequireGroup, h]
 end Run
+
+attribute [mrun] run_pure run_bind run_raise run_getSt run_modifySt run_modC run_liftRaw run_ofOpt_some run_ofOpt_none
+  run_pyAssert_true run_pyAssert_false run_requireKey_true run_requireKey_false run_rawSetItem run_rawDelItem
+  run_dictGetItem run_rawGetItem run_pySetRemove bind_pure_unit
 
 /-! ### loops: the body of a translated loop is replaced by a named step, so that no proof mentions generated text -/
 theorem forEachM_congr {α : Type} {f : α → M Unit} (g : α → M Unit) (h : ∀ a, f a = g a) (l : List α) :
